@@ -65,6 +65,12 @@ TABLE = {
 
 DETECTION = {
     "C16-B": "missed: dask graph construction is outside the technique (C12 territory)",
+    "C09-R3A": "not flagged by the C09 check (it covers the index computation, not the grouped kernel); the same change is caught by the C07 check "
+               "(unstable argsort contract: ties reversed; long grouped replay): HDC_REPO=<worktree> ./check C07 exits 1 (seed C07-R3B is the same edit)",
+    "C02-R3A": "missed: exists only in floating point (a placeholder whose square overflows float64, |nodata| > 1.3e154); in the exact-real "
+               "regime w*(y-z)**2 and (w*(y-z))**2 are the same term for 0/1 weights",
+    "C08-R3A": "not caught: the check stops with exit 3 (scipy.special.gammaincc has no contract); the defect itself exists only in floating point "
+               "(the CDF rounding to exactly 1.0) and is outside the exact-real regime",
     "C02-R2": "not flagged by the C02 check (the kernel zero-fills masked cells, so both placeholder runs agree); caught by the C03 check "
               "(kernel differs from the reference expectile model): HDC_REPO=<worktree> ./check C03 exits 1",
     "C03-R2": "not flagged by the C03 check (its reference model shares ws2d with the kernel); caught by the C01 check on graded weight "
@@ -76,9 +82,15 @@ def main():
     sd = os.path.join(HERE, "seeded")
     for name in sorted(os.listdir(sd)):
         d = os.path.join(sd, name)
-        if not os.path.isdir(d) or name not in TABLE:
+        if not os.path.isdir(d):
             continue
-        prop, change, needs = TABLE[name]
+        if name in TABLE:
+            prop, change, needs = TABLE[name]
+        elif os.path.exists(os.path.join(d, "agent_meta.json")):
+            am = json.load(open(os.path.join(d, "agent_meta.json")))
+            prop, change, needs = name.split("-")[0], am.get("change", ""), am.get("needs_to_manifest", "")
+        else:
+            continue
         meta = {"seed": name, "breaks_property": prop, "change": change, "needs_to_manifest": needs,
                 "origin": "written by a fresh sub-agent that was given only the property record and a scratch worktree; "
                           "confirmed here in a scratch worktree of /repo HEAD (tools/confirm_seed.sh, tools/seed_sweep.sh)"}
